@@ -155,9 +155,14 @@ def main():
             else:
                 res["verdict"] = "inconclusive"
                 res["why"] = ",".join(states)
-            wl = getattr(mod, "_WITNESSES", None)
+            try:
+                import hlib.common as _hc
+
+                wl = _hc._WITNESSES
+            except Exception:  # noqa
+                wl = None
             if wl:
-                res["witnesses"] = [repr(w) for w in wl[:50]]
+                res["witnesses"] = [repr(w) for w in wl[:400]]
                 del wl[:]
         except BaseException as e:  # noqa
             res["verdict"] = "error"
